@@ -407,7 +407,7 @@ func (s *Sim) collect() {
 		ens := in.ensures
 		disc := in.disconns
 		in.outbox, in.ensures, in.disconns = nil, nil, 0
-		crashedNow := in.dead && n.alive
+		crashedNow := in.crashReq && n.alive
 		hit := in.trigHit
 		in.mu.Unlock()
 		// canonical order of one reaction's emissions (DESIGN.md F5-c)
@@ -627,16 +627,55 @@ func (s *Sim) finished() bool {
 	return true
 }
 
-// one asynchronous scheduler step
+// pickW maps a raw 16-bit draw onto weighted options (option 0 must be the benign one).
+func pickW(raw int, w []int) int {
+	tot := 0
+	for _, x := range w {
+		if x > 0 {
+			tot += x
+		}
+	}
+	if tot == 0 {
+		return -1
+	}
+	v := raw % tot
+	for i, x := range w {
+		if x <= 0 {
+			continue
+		}
+		if v < x {
+			return i
+		}
+		v -= x
+	}
+	return -1
+}
+
+const drawN = 1 << 16
+
+// one asynchronous scheduler step. Every step consumes exactly six decisions
+// (step.fault, step.sched, step.reorder, step.a, step.b, step.c), whether it needs them or not, so
+// the tape is rectangular: deleting a step or zeroing its fault keeps all later steps aligned
+// (this is what makes tapes shrinkable, DESIGN.md §2.6).
 func (s *Sim) asyncStep() {
 	tp := s.tape
 	c := &s.cfg
+	base := len(tp.Rec)
+	rFault := tp.Choose("step.fault", drawN)
+	rSched := tp.Choose("step.sched", drawN)
+	rReorder := tp.Choose("step.reorder", drawN)
+	rA := tp.Choose("step.a", drawN)
+	rB := tp.Choose("step.b", drawN)
+	rC := tp.Choose("step.c", drawN)
 	del := s.deliverable()
 	tn := s.timerNodes()
-	var dead, alive []*Node
+	var dead, alive, honestAlive []*Node
 	for _, n := range s.nodes {
 		if n.alive {
 			alive = append(alive, n)
+			if !n.adv {
+				honestAlive = append(honestAlive, n)
+			}
 		} else {
 			dead = append(dead, n)
 		}
@@ -648,107 +687,83 @@ func (s *Sim) asyncStep() {
 		}
 	}
 	lag := s.lagging()
-	const (
-		aDeliver = iota
-		aTimer
-		aDrop
-		aDup
-		aCrash
-		aRestart
-		aPart
-		aStarve
-		aFlush
-		aSync
-		aTrig
-		aCraft
-		nActs
-	)
-	w := make([]int, nActs)
-	if len(del) > 0 {
-		w[aDeliver] = 1000
-		w[aDrop] = c.WDrop
-		w[aDup] = c.WDup
-		if len(tn) > 0 {
-			w[aTimer] = c.WTimer
+	// canonical effective values of this step's six decisions (0 = unused / benign)
+	var eff [6]int
+	defer func() {
+		for j := 0; j < 6; j++ {
+			tp.Canon(base+j, eff[j])
 		}
-	} else if len(tn) > 0 {
-		w[aTimer] = 1000
-	}
-	honestAlive := 0
-	for _, n := range alive {
-		if !n.adv {
-			honestAlive++
-		}
-	}
-	if s.crashes < c.MaxCrashes && honestAlive > 1 {
-		w[aCrash] = c.WCrash
-		w[aTrig] = c.WTrig
-	}
-	if len(dead) > 0 {
-		w[aRestart] = 6
-		if len(del) == 0 && len(tn) == 0 {
-			w[aRestart] = 1000
-		}
-	}
-	w[aPart] = c.WPart
-	if s.partitioned() {
-		w[aPart] = 4 // partitions heal after a few hundred steps on average
-	}
-	w[aStarve] = c.WStarve
-	if len(pf) > 0 {
-		w[aFlush] = 60
-	}
-	if len(lag) > 0 {
-		w[aSync] = c.WSync
-	}
-	if c.Craft && c.AdvInst > 0 {
-		w[aCraft] = 15
-	}
-	act := tp.Weighted("act", w)
-	switch act {
-	case aDeliver:
-		k := 0
-		if c.ReorderPct > 0 && len(del) > 1 && tp.Chance("reorder", c.ReorderPct, 100) {
-			win := min(c.ReorderWin, len(del))
-			k = tp.Choose("msg", win)
-			if k > 0 {
-				s.stat("reordered", 1)
+		for _, n := range s.nodes {
+			if n.starve > 0 {
+				n.starve--
 			}
 		}
-		f := s.removeFlight(del[k])
-		s.deliver(f)
-	case aTimer:
-		n := tn[tp.Choose("timer.node", len(tn))]
-		s.fireTimer(n)
-	case aDrop:
-		k := tp.Choose("drop.msg", len(del))
-		f := s.removeFlight(del[k])
+	}()
+	// ---- fault decision (option 0 = no fault this step)
+	const (
+		fNone = iota
+		fDrop
+		fDup
+		fCrash
+		fTrig
+		fPart
+		fStarve
+		fCraft
+	)
+	fw := make([]int, 8)
+	fw[fNone] = 1000
+	if len(del) > 0 {
+		fw[fDrop] = c.WDrop
+		fw[fDup] = c.WDup
+	}
+	if s.crashes < c.MaxCrashes && len(honestAlive) > 1 {
+		fw[fCrash] = c.WCrash
+		fw[fTrig] = c.WTrig
+	}
+	fw[fPart] = c.WPart
+	if s.partitioned() {
+		fw[fPart] = 4 // partitions heal after a few hundred steps on average
+	}
+	fw[fStarve] = c.WStarve
+	if c.Craft && c.AdvInst > 0 {
+		fw[fCraft] = 15
+	}
+	fpick := pickW(rFault, fw)
+	if fpick > fNone {
+		eff[0], eff[3], eff[4], eff[5] = rFault, rA, rB, rC
+	}
+	switch fpick {
+	case fDrop:
+		f := s.removeFlight(del[rA%len(del)])
 		s.log.Add("drop m%d %d->%d %s", f.id, f.from, f.to, f.key)
 		s.stat("drop", 1)
-	case aDup:
-		k := tp.Choose("dup.msg", len(del))
-		f := s.inflight[del[k]]
+		return
+	case fDup:
+		f := s.inflight[del[rA%len(del)]]
 		s.nextID++
 		cp := *f
 		cp.id = s.nextID
 		s.inflight = append(s.inflight, &cp)
 		s.log.Add("dup m%d -> m%d", f.id, cp.id)
 		s.stat("dup", 1)
-	case aCrash:
-		var cand []*Node
-		for _, n := range alive {
-			if !n.adv {
-				cand = append(cand, n)
-			}
-		}
-		n := cand[tp.Choose("crash.node", len(cand))]
+		return
+	case fCrash:
+		n := honestAlive[rA%len(honestAlive)]
 		s.log.Add("crash n%d (quiescent)", n.id)
 		s.finishCrash(n, "quiescent")
-	case aRestart:
-		n := dead[tp.Choose("restart.node", len(dead))]
-		s.log.Add("restart n%d from %s", n.id, filepath.Base(n.dbPath))
-		s.restart(n)
-	case aPart:
+		return
+	case fTrig:
+		n := honestAlive[rA%len(honestAlive)]
+		masks := []uint32{1 << seamSend, 1 << seamSend, 1 << seamWaitPersist, 1 << seamWaitPersist, 1 << seamEnsure, 1 << seamTimer, 1 << seamWaitDemux, 1 << seamAssemble}
+		m := masks[rB%len(masks)]
+		k := 1 + rC%12
+		n.cur.mu.Lock()
+		n.cur.trigMask, n.cur.trigLeft = m, k
+		n.cur.mu.Unlock()
+		s.log.Add("arm n%d mask=%b k=%d", n.id, m, k)
+		s.stat("trigger_armed", 1)
+		return
+	case fPart:
 		if s.partitioned() {
 			for _, n := range s.nodes {
 				n.group = 0
@@ -756,57 +771,91 @@ func (s *Sim) asyncStep() {
 			s.log.Add("heal")
 			s.stat("heal", 1)
 		} else {
+			bits := rA
+			var g []int
 			for _, n := range s.nodes {
-				n.group = tp.Choose("part.group", 2)
+				n.group = bits & 1
+				bits >>= 1
+				g = append(g, n.group)
 			}
-			s.log.Add("partition %v", func() []int {
-				var g []int
-				for _, n := range s.nodes {
-					g = append(g, n.group)
-				}
-				return g
-			}())
+			s.log.Add("partition %v", g)
 			s.stat("partition", 1)
 		}
-	case aStarve:
-		n := s.nodes[tp.Choose("starve.node", len(s.nodes))]
-		n.starve = tp.Range("starve.len", 5, 120)
+		return
+	case fStarve:
+		n := s.nodes[rA%len(s.nodes)]
+		n.starve = 5 + rB%116
 		s.log.Add("starve n%d for %d", n.id, n.starve)
 		s.stat("stall", 1)
+		return
+	case fCraft:
+		s.craftAction(rA, rB, rC)
+		return
+	}
+	// ---- benign scheduling decision (option 0 = deliver the oldest deliverable message)
+	const (
+		aDeliver = iota
+		aTimer
+		aFlush
+		aSync
+		aRestart
+	)
+	w := make([]int, 5)
+	if len(del) > 0 {
+		w[aDeliver] = 1000
+		if len(tn) > 0 {
+			w[aTimer] = c.WTimer
+		}
+	} else if len(tn) > 0 {
+		w[aTimer] = 1000
+	}
+	if len(dead) > 0 {
+		w[aRestart] = 6
+		if len(del) == 0 && len(tn) == 0 {
+			w[aRestart] = 1000
+		}
+	}
+	if len(pf) > 0 {
+		w[aFlush] = 60
+	}
+	if len(lag) > 0 {
+		w[aSync] = c.WSync
+	}
+	spick := pickW(rSched, w)
+	if spick > aDeliver {
+		eff[1], eff[3] = rSched, rA
+	}
+	switch spick {
+	case aDeliver:
+		k := 0
+		if c.ReorderPct > 0 && len(del) > 1 && rReorder%100 >= 100-c.ReorderPct {
+			k = rA % min(c.ReorderWin, len(del))
+			if k > 0 {
+				s.stat("reordered", 1)
+				eff[2], eff[3] = rReorder, rA
+			}
+		}
+		f := s.removeFlight(del[k])
+		s.deliver(f)
+	case aTimer:
+		s.fireTimer(tn[rA%len(tn)])
 	case aFlush:
-		n := pf[tp.Choose("flush.node", len(pf))]
+		n := pf[rA%len(pf)]
 		k := n.led.flush()
 		s.log.Add("flush n%d released=%d", n.id, k)
 		s.stat("flush_release", int64(k))
 	case aSync:
-		n := lag[tp.Choose("sync.node", len(lag))]
+		n := lag[rA%len(lag)]
 		r := n.led.next()
 		ok := n.led.write(s.canon[r], s.canonCert[r])
 		s.log.Add("catchup n%d r%d ok=%v", n.id, r, ok)
 		s.stat("catchup_block", 1)
-	case aTrig:
-		var cand []*Node
-		for _, n := range alive {
-			if !n.adv {
-				cand = append(cand, n)
-			}
-		}
-		n := cand[tp.Choose("trig.node", len(cand))]
-		masks := []uint32{1 << seamSend, 1 << seamSend, 1 << seamWait, 1 << seamEnsure, 1<<seamTimer | 1<<seamRead, 1 << seamAssemble, (1 << nSeamKinds) - 1}
-		m := masks[tp.Choose("trig.kind", len(masks))]
-		k := tp.Range("trig.count", 1, 12)
-		n.cur.mu.Lock()
-		n.cur.trigMask, n.cur.trigLeft = m, k
-		n.cur.mu.Unlock()
-		s.log.Add("arm n%d mask=%b k=%d", n.id, m, k)
-		s.stat("trigger_armed", 1)
-	case aCraft:
-		s.craftAction()
-	}
-	for _, n := range s.nodes {
-		if n.starve > 0 {
-			n.starve--
-		}
+	case aRestart:
+		n := dead[rA%len(dead)]
+		s.log.Add("restart n%d from %s", n.id, filepath.Base(n.dbPath))
+		s.restart(n)
+	default:
+		s.log.Add("idle")
 	}
 }
 
